@@ -114,4 +114,238 @@ theorem buildFields_cons (cfg : Cfg) (f : FieldDef) (r : FieldDefs) :
         | panic => simp [consRes]
         | hang => simp [consRes]
 
+/-! ### the kind-switch arms shared by `build` and `buildNamed` -/
+
+def ptrArm (t : TyDef) (r : Res Ty) : Res Ty :=
+  if t.kind = .map then .err else
+  match r with
+  | .ok c => .ok (.ptr c)
+  | e => e
+
+def sliceArm (cfg : Cfg) (tag : String) (t : TyDef) (r : Res Ty) : Res Ty :=
+  if t.kind = .map then .err else
+  match r with
+  | .ok c => sliceWrap cfg tag (t.kind = .ptr) c
+  | e => e
+
+def mapArm (tag : String) (v : TyDef) (rk rv : Res Ty) : Res Ty :=
+  if v.kind = .map then .err else
+  match rk, rv with
+  | .ok kc, .ok vc => .ok (.map kc vc (tag == "proto"))
+  | .ok _, e => e
+  | e, _ => e
+
+def structArm (name : String) (r : Res Fields) : Res Ty :=
+  match r with
+  | .ok cfs => if hasDup (cfs.map (·.1)) then .err else .ok (.struct name cfs)
+  | .err => .err
+  | .panic => .panic
+  | .hang => .hang
+
+theorem build_ptr (cfg : Cfg) (t : TyDef) (tag : String) :
+    build cfg (.ptr t) tag = ptrArm t (build cfg t tag) := by
+  rw [build]; unfold ptrArm
+  by_cases h : t.kind = .map
+  · simp only [if_pos h]
+  · simp only [if_neg h]; cases build cfg t tag <;> rfl
+
+theorem buildNamed_ptr (cfg : Cfg) (n : String) (t : TyDef) (tag : String) :
+    buildNamed cfg n (.ptr t) tag = ptrArm t (build cfg t tag) := by
+  rw [buildNamed]; unfold ptrArm
+  by_cases h : t.kind = .map
+  · simp only [if_pos h]
+  · simp only [if_neg h]; cases build cfg t tag <;> rfl
+
+theorem buildNamed_slice (cfg : Cfg) (n : String) (t : TyDef) (tag : String) :
+    buildNamed cfg n (.slice t) tag = sliceArm cfg tag t (build cfg t "") := by
+  rw [buildNamed]; unfold sliceArm
+  by_cases h : t.kind = .map
+  · simp only [if_pos h]
+  · simp only [if_neg h]; cases build cfg t "" <;> rfl
+
+theorem build_slice (cfg : Cfg) (t : TyDef) (tag : String) :
+    build cfg (.slice t) tag =
+      match regLoad cfg (.slice t) tag with
+      | some c => .ok c
+      | none => sliceArm cfg tag t (build cfg t "") := by
+  rw [build]
+  cases regLoad cfg (.slice t) tag with
+  | some c => rfl
+  | none =>
+    simp only [sliceArm]
+    by_cases h : t.kind = .map
+    · simp only [if_pos h]
+    · simp only [if_neg h]; cases build cfg t "" <;> rfl
+
+theorem build_map (cfg : Cfg) (k v : TyDef) (tag : String) :
+    build cfg (.map k v) tag = mapArm tag v (build cfg k "") (build cfg v "") := by
+  rw [build]; unfold mapArm
+  by_cases h : v.kind = .map
+  · simp only [if_pos h]
+  · simp only [if_neg h]; cases build cfg k "" <;> cases build cfg v "" <;> rfl
+
+theorem buildNamed_map (cfg : Cfg) (n : String) (k v : TyDef) (tag : String) :
+    buildNamed cfg n (.map k v) tag = mapArm tag v (build cfg k "") (build cfg v "") := by
+  rw [buildNamed]; unfold mapArm
+  by_cases h : v.kind = .map
+  · simp only [if_pos h]
+  · simp only [if_neg h]; cases build cfg k "" <;> cases build cfg v "" <;> rfl
+
+theorem buildNamed_struct (cfg : Cfg) (n name : String) (fs : FieldDefs) (tag : String) :
+    buildNamed cfg n (.struct name fs) tag = structArm n (buildFields cfg fs) := by
+  rw [buildNamed]; unfold structArm
+  cases buildFields cfg fs <;> rfl
+
+theorem build_struct (cfg : Cfg) (name : String) (fs : FieldDefs) (tag : String) :
+    build cfg (.struct name fs) tag =
+      match customLoad cfg (.struct name fs) tag with
+      | some c => .ok c
+      | none =>
+        if tag != "" && (customLoad cfg (.struct name fs) "").isSome then .err
+        else structArm name (buildFields cfg fs) := by
+  rw [build]
+  cases customLoad cfg (.struct name fs) tag with
+  | some c => rfl
+  | none =>
+    simp only [structArm]
+    by_cases h : (tag != "" && (customLoad cfg (.struct name fs) "").isSome) = true
+    · simp only [if_pos h]
+    · simp only [if_neg h]; cases buildFields cfg fs <;> rfl
+
+theorem build_named (cfg : Cfg) (n : String) (t : TyDef) (tag : String) :
+    build cfg (.named n t) tag =
+      match customLoad cfg (.named n t) tag with
+      | some c => .ok c
+      | none => buildNamed cfg n t tag := by
+  rw [build]
+  cases customLoad cfg (.named n t) tag <;> rfl
+
+/-! ### 1. totality: `ok` or `err`, never `panic`, never `hang` -/
+
+theorem sliceWrap_fine (cfg : Cfg) (tag : String) (b : Bool) (c : Ty) :
+    (sliceWrap cfg tag b c).fine := by
+  unfold sliceWrap
+  split <;> (try split) <;> trivial
+
+theorem ptrArm_fine {t : TyDef} {r : Res Ty} (h : r.fine) : (ptrArm t r).fine := by
+  unfold ptrArm; split
+  · trivial
+  · cases r <;> first | trivial | exact h
+
+theorem sliceArm_fine {cfg : Cfg} {tag : String} {t : TyDef} {r : Res Ty} (h : r.fine) :
+    (sliceArm cfg tag t r).fine := by
+  unfold sliceArm; split
+  · trivial
+  · cases r <;> first | exact sliceWrap_fine _ _ _ _ | exact h
+
+theorem mapArm_fine {tag : String} {v : TyDef} {rk rv : Res Ty} (hk : rk.fine) (hv : rv.fine) :
+    (mapArm tag v rk rv).fine := by
+  unfold mapArm; split
+  · trivial
+  · cases rk <;> cases rv <;> first | trivial | exact hk | exact hv
+
+theorem structArm_fine {name : String} {r : Res Fields} (h : r.fine) : (structArm name r).fine := by
+  unfold structArm
+  cases r <;> first | exact h | skip
+  simp only; split <;> trivial
+
+/-- `encField` never panics or hangs when the field type's build does not. -/
+def stepFine : Option (Res (Nat × String × Ty)) → Prop
+  | none => True
+  | some r => r.fine
+
+theorem consRes_fine {o : Option (Res (Nat × String × Ty))} {r : Res Fields}
+    (ho : stepFine o) (hr : r.fine) : (consRes o r).fine := by
+  cases o with
+  | none => exact hr
+  | some x => cases x <;> cases r <;> first | trivial | exact ho | exact hr
+
+theorem encField_fine (cfg : Cfg) (f : FieldDef)
+    (h : ∀ tag, (build cfg f.2.2.2.2 tag).fine) : stepFine (encField cfg f) := by
+  obtain ⟨g, e, p, j, t⟩ := f
+  simp only [encField]
+  split; · trivial
+  split; · trivial
+  split; · trivial
+  split; · trivial
+  split; · trivial
+  have := h (subTag (splitComma p).2)
+  simp only at this
+  generalize build cfg t (subTag (splitComma p).2) = rb at this
+  cases rb <;> first | trivial | exact this
+
+mutual
+theorem fine_both (cfg : Cfg) : (d : TyDef) →
+    (∀ tag, (build cfg d tag).fine) ∧ (∀ n tag, (buildNamed cfg n d tag).fine)
+  | .basic b => by
+    constructor
+    · intro tag; rw [build]; split <;> trivial
+    · intro n tag; rw [buildNamed]; split <;> trivial
+  | .time => by
+    constructor
+    · intro tag; rw [build]; split
+      · trivial
+      · split <;> trivial
+    · intro n tag; rw [buildNamed]; trivial
+  | .ext m => by
+    constructor
+    · intro tag; rw [build]; split <;> trivial
+    · intro n tag; rw [buildNamed]; trivial
+  | .bad k => by
+    constructor
+    · intro tag; rw [build]; trivial
+    · intro n tag; rw [buildNamed]; trivial
+  | .named m t => by
+    have ih := fine_both cfg t
+    constructor
+    · intro tag; rw [build_named]; split
+      · trivial
+      · exact ih.2 m tag
+    · intro n tag; rw [buildNamed]; exact ih.2 n tag
+  | .ptr t => by
+    have ih := fine_both cfg t
+    constructor
+    · intro tag; rw [build_ptr]; exact ptrArm_fine (ih.1 tag)
+    · intro n tag; rw [buildNamed_ptr]; exact ptrArm_fine (ih.1 tag)
+  | .slice t => by
+    have ih := fine_both cfg t
+    constructor
+    · intro tag; rw [build_slice]; split
+      · trivial
+      · exact sliceArm_fine (ih.1 "")
+    · intro n tag; rw [buildNamed_slice]; exact sliceArm_fine (ih.1 "")
+  | .map k v => by
+    have ihk := fine_both cfg k
+    have ihv := fine_both cfg v
+    constructor
+    · intro tag; rw [build_map]; exact mapArm_fine (ihk.1 "") (ihv.1 "")
+    · intro n tag; rw [buildNamed_map]; exact mapArm_fine (ihk.1 "") (ihv.1 "")
+  | .struct name fs => by
+    have ih := fine_fields cfg fs
+    constructor
+    · intro tag; rw [build_struct]; split
+      · trivial
+      · split
+        · trivial
+        · exact structArm_fine ih
+    · intro n tag; rw [buildNamed_struct]; exact structArm_fine ih
+theorem fine_fields (cfg : Cfg) : (fs : FieldDefs) → (buildFields cfg fs).fine
+  | [] => by rw [buildFields_nil]; trivial
+  | (g, e, p, j, t) :: r => by
+    have iht := fine_both cfg t
+    have ihr := fine_fields cfg r
+    rw [buildFields_cons]
+    exact consRes_fine (encField_fine cfg _ iht.1) ihr
+end
+
+theorem build_total (cfg : Cfg) (d : TyDef) (tag : String) : (build cfg d tag).fine :=
+  (fine_both cfg d).1 tag
+
+theorem buildNamed_total (cfg : Cfg) (n : String) (d : TyDef) (tag : String) :
+    (buildNamed cfg n d tag).fine :=
+  (fine_both cfg d).2 n tag
+
+theorem buildFields_total (cfg : Cfg) (fs : FieldDefs) : (buildFields cfg fs).fine :=
+  fine_fields cfg fs
+
 end Build
